@@ -133,6 +133,11 @@ func init() {
 			{"AuthenticationResponse", nasTestpacket.GetAuthenticationResponse([]byte{1, 2, 3, 4, 5, 6, 7, 8, 9, 10, 11, 12, 13, 14, 15, 16}, "")},
 			{"Status5GMM", nasTestpacket.GetStatus5GMM(0x6f)},
 			{"SecurityModeCompleteWithContainer", nasTestpacket.GetSecurityModeComplete(nasTestpacket.GetRegistrationComplete(nil))},
+			// plain 5GSM messages (EPD 0x2e) handed to the protection functions directly: a security protected message is a
+			// 5GMM message (first octet 0x7e) whatever it carries
+			{"Gsm_PduSessionReleaseRequest", []byte{0x2e, 0x05, 0x01, 0xd1}},
+			{"Gsm_PduSessionReleaseComplete", []byte{0x2e, 0x05, 0x01, 0xd4}},
+			{"Gsm_PduSessionModificationComplete", []byte{0x2e, 0x07, 0x02, 0xcc}},
 		}
 		msgs := []interface{}{}
 		for _, x := range list {
